@@ -406,7 +406,9 @@ func (cc *Conn) doInternal(req *pool.Message) (*pool.Message, error) {
 	}
 
 	respChan := make(chan *pool.Message, 1)
+	var handlerTaken atomic.Bool
 	if _, loaded := cc.tokenHandlerContainer.LoadOrStore(token.Hash(), func(_ *responsewriter.ResponseWriter[*Conn], r *pool.Message) {
+		handlerTaken.Store(true)
 		r.Hijack()
 		select {
 		case respChan <- r:
@@ -416,7 +418,12 @@ func (cc *Conn) doInternal(req *pool.Message) (*pool.Message, error) {
 		return nil, fmt.Errorf("cannot add token(%v) handler: %w", token, coapErrors.ErrKeyAlreadyExists)
 	}
 	defer func() {
-		_, _ = cc.tokenHandlerContainer.LoadAndDelete(token.Hash())
+		// The receive path removes the handler from the container before it invokes it. Once the handler
+		// has been invoked the token is not registered for this request anymore and may already belong
+		// to a later request, whose handler must not be removed here.
+		if !handlerTaken.Load() {
+			_, _ = cc.tokenHandlerContainer.LoadAndDelete(token.Hash())
+		}
 	}()
 	err := cc.writeMessage(req)
 	if err != nil {
